@@ -273,6 +273,19 @@ Definition constraints := list (list cspec).
 Definition check (cs : constraints) (v : version) : bool :=
   existsb (fun ands => forallb (fun s => check1 v (parse_constraint s)) ands) cs.
 
+(* Hyphen ranges.  NewConstraint first rewrites every "lo - hi" (two versions as the constraint regexp reads them,
+   wildcards and missing segments allowed, separated by " - ") into ">= lo, <= hi" inside its AND group (rewriteRange);
+   a configuration file or `plugin install name@...` can contain them. *)
+Record vspec := mkVS { vs_maj : seg; vs_rest : option (seg * option seg); vs_pre : list bytes }.
+Inductive citem := CI (c : cspec) | CR (lo hi : vspec).
+Definition rewrite_range (g : list citem) : list cspec :=
+  flat_map (fun it => match it with
+                      | CI c => [c]
+                      | CR lo hi => [mkCS OpGe (vs_maj lo) (vs_rest lo) (vs_pre lo); mkCS OpLe (vs_maj hi) (vs_rest hi) (vs_pre hi)]
+                      end) g.
+Definition constraints_src := list (list citem).
+Definition desugar (s : constraints_src) : constraints := map rewrite_range s.
+
 (* semver.NewConstraint("*"), what dbLoop substitutes for a database without a version *)
 Definition star : constraints := [[mkCS OpEq SX None []]].
 
@@ -452,6 +465,8 @@ Inductive c28_case :=
 | KCmp (a b : version_obs) (obs : Z)
 (* NewConstraint(render cs).Check(v) *)
 | KCheck (cs : constraints) (v : version_obs) (obs : bool)
+(* the same with hyphen ranges in the text: NewConstraint(render src) = rewriteRange then the above *)
+| KCheckR (src : constraints_src) (v : version_obs) (obs : bool)
 (* ListInstalledPlugins on a tree (entries in os.ReadDir order); installed = the tree was produced by installations,
    given as repository -> plugin name -> version directories, so the discovery oracle applies *)
 | KList (installed : bool) (t : tree) (obs : outcome (list md_obs))
@@ -476,6 +491,7 @@ Definition c28_tie (c : c28_case) : bool :=
       opt_tie (fun v '(o, s) => vobs_eqb (vobs v) o && bytes_eqb (print_version v) s) (parse_version text) obs
   | KCmp a b obs => vcompare (of_obs a) (of_obs b) =? obs
   | KCheck cs v obs => Bool.eqb (check cs (of_obs v)) obs
+  | KCheckR src v obs => Bool.eqb (check (desugar src) (of_obs v)) obs
   | KList installed t obs =>
       outcome_tie (all2 md_tie) (listed (if installed then dir_tree t else t)) obs
   | KResolve it dbs db obs => outcome_tie vobs_tie (model_resolve it dbs db) obs
